@@ -15,7 +15,9 @@ pub mod c10;
 pub mod c11;
 pub mod c12;
 pub mod c13;
+pub mod c14;
 pub mod c18;
+pub mod c20;
 
 pub fn run(ctx: &Ctx) -> i32 {
     let verdict: Verdict = match ctx.prop.as_str() {
@@ -30,7 +32,9 @@ pub fn run(ctx: &Ctx) -> i32 {
         "C11" => c11::run(ctx),
         "C12" => c12::run(ctx),
         "C13" => c13::run(ctx),
+        "C14" => c14::run(ctx),
         "C18" => c18::run(ctx),
+        "C20" => c20::run(ctx),
         other => {
             eprintln!("rt: property {other} is not served by this engine");
             return EXIT_INCONCLUSIVE;
@@ -53,7 +57,9 @@ pub fn replay_case(prop: &str, sub: &str, case: Value) -> Result<(), String> {
         "C11" => c11::replay(sub, case),
         "C12" => c12::replay(sub, case),
         "C13" => c13::replay(sub, case),
+        "C14" => c14::replay(sub, case),
         "C18" => c18::replay(sub, case),
+        "C20" => c20::replay(sub, case),
         other => Err(format!("HARNESS: no replay for property {other}")),
     }
 }
